@@ -213,7 +213,7 @@ pub fn main(args: &util::Args) {
     }
     // generated closure programs: main stream (flows the pass rewrites) and, every fourth
     // program, exactly one flow outside the rewriting
-    let total = args.n.unwrap_or(if args.tier == "thorough" { 4000 } else { 400 });
+    let total = args.n.unwrap_or(if args.tier == "thorough" { 12000 } else { 1500 });
     let dir = util::scratch_dir("c08");
     let mut feats_total: std::collections::BTreeMap<&'static str, usize> = Default::default();
     let (mut accepted, mut rejected) = (0usize, 0usize);
